@@ -4,6 +4,7 @@
    One operation = one API call or one inbound frame run to quiescence; the correspondence run drives a real Node
    with concurrent caller tasks against a scripted peer. *)
 From EDP Require Import Base.Bytes Term.Term Gen.PidConsts Codec.Decode Dist.PidAlloc Dist.Control Node.Node Node.NodeFacts.
+From EDP Require Gen.LockScope Conc.AllocConc.
 Open Scope N_scope.
 
 (* along every run (below the identifier wrap: fewer than 2^20 allocations) every call started is either pending or
@@ -39,5 +40,12 @@ Example C17_example :
   let st := run cfg (node_init [110] 7 true) [ORpc true [109] [102] []; ORpc false [109] [102] []; OExpire] in
   n_calls st = 2 /\ map fst (n_results st) = [0] /\ length (n_pending st) = 1%nat.
 Proof. cbv zeta. repeat split; vm_compute; reflexivity. Qed.
+
+(* the reply identifiers of concurrent calls come from the node's allocator; that they are pairwise distinct under any
+   interleaving of the callers is C16_concurrent_pids_unique, which rests on the allocator holding its lock across the
+   whole allocation and on rpc_call_raw_with_timeout holding the connection's lock across its send — both re-read from
+   the source by the translator *)
+Theorem C17_reply_identifiers_rest_on_held_locks : forallb snd LockScope.lock_sites = true.
+Proof. exact AllocConc.allocate_holds_its_lock. Qed.
 
 Check C17_bookkeeping.
